@@ -99,4 +99,5 @@ def merge_sub(sim, res, label=""):
     sim.event("sub", label, res["verdict"], res["digest"])
     if res["verdict"] == "violation":
         sim.notes["sub_trace"] = res.get("trace_tail")
+        sim.notes["violation_digest"] = res["digest"]
         sim.fail(res["oracle"], res["signature"], f"[{label}] {res['detail']}")
